@@ -323,6 +323,7 @@ func Run(s Sess) mon.Result {
 		failing := s.Fail != nil && oi == s.Fail.At
 		var failWant []rec // what the device must have received when the held hop has been typed
 		failLevel := -1    // the level the device is in after the held hop
+		failK := 0
 		if failing {
 			if unknown {
 				return bad("c04/harness:failing-op-unknown-target", "generator error")
@@ -342,13 +343,14 @@ func Run(s Sess) mon.Result {
 				mid = down[k-len(up)]
 			}
 			failWant, _ = expectedPath(&s, from, mid)
-			failLevel = mid
+			failLevel, failK = mid, k
 			h := failWant[len(failWant)-1]
 			conn.Do(func() { holdArmed, held = &h, false })
 			nd.Channel.TimeoutOps = time.Duration(s.Fail.TimeoutMs) * time.Millisecond
 		}
 
 		var oerr error
+		callStart := time.Now()
 		switch op.Kind {
 		case "acquire":
 			name := op.Unknown
@@ -381,6 +383,7 @@ func Run(s Sess) mon.Result {
 		default:
 			return bad("c04/harness:bad-op", "unknown op kind")
 		}
+		callDur := time.Since(callStart)
 		after := snapshot()
 		w1 := atomic.LoadInt64(&writes)
 		got, bare := linesBetween(before.n, after.n)
@@ -413,7 +416,7 @@ func Run(s Sess) mon.Result {
 				}
 				time.Sleep(2 * time.Millisecond)
 				obs["failed_hops"]++
-				if from == s.Default && len(failWant) <= 2 && failLevel != s.Default {
+				if from == s.Default && failK == 0 {
 					obs["failed_hops_leaving_default_level"]++
 				}
 				obs["ops_after_failed_hop"] += int64(len(s.Ops) - oi - 1)
@@ -423,15 +426,12 @@ func Run(s Sess) mon.Result {
 				nontrivial = true
 				continue
 			}
-			if oerr != nil && errors.Is(oerr, util.ErrTimeoutError) {
+			// a premature firing of the short timeout (machine load) is no verdict; SendCommand(s) report it
+			// as a bare privilege error, so the call's duration decides for them
+			wrapped := (op.Kind == "command" || op.Kind == "commands") && errors.Is(oerr, util.ErrPrivilegeError) &&
+				callDur >= time.Duration(s.Fail.TimeoutMs)*time.Millisecond
+			if oerr != nil && (errors.Is(oerr, util.ErrTimeoutError) || wrapped) {
 				return mon.Result{Verdict: mon.Inconclusive, Detail: "short operation timeout fired before the held hop was reached (load)"}
-			}
-			if oerr != nil && op.Kind != "acquire" && errors.Is(oerr, util.ErrPrivilegeError) && (mon.LoadedSince(t0) || true) {
-				// SendCommand(s) wrap the acquisition error; without the hold having been reached this is the
-				// same premature timeout
-				if op.Kind == "command" || op.Kind == "commands" {
-					return mon.Result{Verdict: mon.Inconclusive, Detail: "short operation timeout fired before the held hop was reached (load)"}
-				}
 			}
 			// the held line never arrived and the call did not time out: judged like any other call
 		}
@@ -538,7 +538,7 @@ func Run(s Sess) mon.Result {
 		}
 	}
 	obs["pairs_current_target"] = int64(len(pairs))
-	if s.Kind != "seq" {
+	if s.Kind == "tree" || s.Kind == "bigtree" {
 		// the tour must have visited every ordered pair of the tree (generator premise)
 		if len(pairs) < n*n {
 			return mon.Result{Verdict: mon.Violated, Key: "c04/harness:tour-incomplete", Detail: fmt.Sprintf("%d of %d ordered pairs observed", len(pairs), n*n)}
@@ -619,7 +619,9 @@ func init() {
 			"the driver itself (AcquirePriv, SendCommand(s), SendConfig(s) with/without WithPrivilegeLevel, SendInteractive), plus unknown-target probes. Sampled part: random " +
 			"trees with 6-8 levels (chain/star/caterpillar/Pruefer) with the same tour, and random operation sequences (<=12 ops) on trees with 2-6 levels; names, prompts, " +
 			"transition commands, which edges ask for the secret, start mode, default level, newline, return char, read size, read delay, search depth and read segmentation are PRNG-drawn. " +
-			"Non-trivial = the case contains a call whose tree path has >=2 steps, or that crosses an edge on which the device asked for the secret, or a SendCommand(s) call (the operations that consult the cached level) " +
+			"Failed-hop family (40 quick / 600 thorough): random sequences in which, during one call that needs >=1 hop, the device executes hop k of the path " +
+			"(mode changes) but holds its reaction back until the call (run with a 400 ms operation timeout) has failed; the reaction is then released and drained, and 2-4 more calls follow, SendCommand(s) first, " +
+			"judged by the usual oracle from the device's true mode. Non-trivial = the case contains a call whose tree path has >=2 steps, or that crosses an edge on which the device asked for the secret, or a hop whose reaction was really held back, or a SendCommand(s) call (the operations that consult the cached level) " +
 			"issued while the cached level differs from the device's mode. Distinct = distinct descriptor hash.",
 		Assumptions: []string{
 			"the device is the causal devsim.CLI model: echo, newline, output, prompt; a transition command is honoured only in the mode it belongs to, anything else prints an error line and changes nothing; workload commands never change the mode",
@@ -628,6 +630,7 @@ func init() {
 			"every command ends in a byte that occurs nowhere else in the command, the prompts, the outputs or the secret (fuzzy echo matching)",
 			"the correct secondary secret is configured whenever some edge asks for it; search depth > longest prompt + longest output line",
 			"reference path: walk both levels up to the lowest common ancestor (treePath, 25 lines), independent of the library's graph search",
+			"failed-hop family: the held-back reaction (newline + prompt of the NEW mode) is released and completely delivered before the next call, so the only stale bytes the next call meets are a prompt that reflects the device's true mode; the hold is applied only when the device really received the chosen transition line, and a short-timeout failure before that point is inconclusive",
 			"an operation timeout is judged only when every generated byte had been delivered and the load canary was quiet, otherwise inconclusive",
 		},
 		Gen: gen,
